@@ -179,14 +179,18 @@ def styleattrs_to_colorful(attrs):
             accessor = 'prettyprinterCurrFg'
         if attrs['bgcolor']:
             colorful.update_palette({'prettyprinterCurrBg': attrs['bgcolor']})
-            accessor += '_on_prettyprinterCurrBg'
+            accessor = (
+                accessor + '_on_prettyprinterCurrBg'
+                if accessor
+                else 'on_prettyprinterCurrBg'
+            )
         c &= getattr(colorful, accessor)
     if attrs['bold']:
         c &= colorful.bold
     if attrs['italic']:
         c &= colorful.italic
     if attrs['underline']:
-        c &= colorful.underline
+        c &= colorful.underlined
     return c
 
 
@@ -246,6 +250,10 @@ def colored_render_to_stream(
                     stream.write(str(color))
 
             elif isinstance(sdoc, SAnnotationPop):
+                # Only syntax token annotations pushed a color.
+                if not isinstance(sdoc.value, Token):
+                    continue
+
                 try:
                     colorstack.pop()
                 except IndexError:
